@@ -163,6 +163,8 @@ int main(int argc, char **argv)
 				own = crc_own(own, rb, n);
 				total += n; free(rb);
 				if (total > declared) apiv |= 4;
+				/* the accessors describe exactly the bytes handed out so far - after every read, not only at the end */
+				if (lha_decoder_get_crc(d) != own || lha_decoder_get_length(d) != total) apiv |= 16;
 				if (n == 0) break;
 				if (flags & 8) break;        /* reference mode: exactly one (maximal) read call */
 			}
